@@ -40,7 +40,14 @@ def main():
     items = []
     for d in sorted(glob.glob("/verif/seeded/*/patch.diff")):
         name = d.split("/")[-2]
-        items.append((name, name.split("-")[0], d))
+        prop = name.split("-")[0]
+        # a change that breaks the contract of another property than the one it was written against (recorded in
+        # its meta.json as "recheck_property") is re-run against the check that states that contract
+        try:
+            prop = json.load(open(os.path.dirname(d) + "/meta.json")).get("recheck_property", prop)
+        except Exception:
+            pass
+        items.append((name, prop, d))
     expect = dict(l.split()[:2] for l in open("/verif/mutants/EXPECT") if l.strip())
     for d in sorted(glob.glob("/verif/mutants/*.patch")):
         name = os.path.basename(d)[:-6]
